@@ -11,18 +11,27 @@ PROP = 'C04'
 LEAN_MODULES = ['Glom.Props.C04']
 FACT_FILES = ['ExcFacts', 'C04Facts', 'TFacts', 'c04']
 READY = True
-THEOREMS_PER_MODULE = {'Glom.Props.C04': 38}
+THEOREMS_PER_MODULE = {'Glom.Props.C04': 36}
 
 # ---------------------------------------------------------------------------------------------------
-# SWITCH — classes on which the UNCHANGED glom breaks the property (reported to the lead, see the
-# c04_*_counterexample theorems on `genFacts` in Props/C04.lean):
-#   sealed   a class that refuses to be subclassed (`__init_subclass__` / metaclass raises): the
-#            `type(...)` call of GlomError.wrap stands outside its `try`, the TypeError leaves glom()
-#   frozen   a class whose `__setattr__` raises (frozen dataclass): `err._set_wrapped(e)` / `err._finalize()`
-#            in glom()'s handler are unguarded, the AttributeError leaves glom() (GlomError subclasses)
-#   foreign  a user `__copy__` returning an object of another class with the same args: glom() raises the copy
-# Set to True once the fix is committed; the generator then draws these classes like every other one.
-HOSTILE_CLASSES = os.environ.get('C04_HOSTILE', '') == '1'
+# KNOWN FINDINGS (KNOWN_FINDINGS.txt; counter-example theorems c04_class_counterexample_frozen / _bool_raises /
+# _foreign_copy in Props/C04.lean) — generated like every other class, classified by `classify` below:
+#   glomerror_refuses_setattr   a GlomError subclass whose `__setattr__` raises (frozen dataclass), or an exception
+#            whose `__bool__` raises: `err._set_wrapped(e)` / `err._finalize()` (which formats the traceback of `e`
+#            and so evaluates bool(e)) in glom()'s handler are unguarded; the AttributeError / RuntimeError leaves glom()
+#   copy_returns_other_class    a user `__copy__` returning an object of another class with the same args: glom()
+#            raises the copy
+# (the third kind reported with them — a class that refuses to be subclassed — was repaired by 205945c: `type(...)`
+#  now stands inside GlomError.wrap's try; `c04_facts_wf` demands it, the revert is caught by sealed classes)
+KNOWN_CLASSIFIERS = ('glomerror_refuses_setattr', 'copy_returns_other_class')
+#
+# SWITCH — a frame kind on which the UNCHANGED glom breaks the property (reported to the lead; gated until repaired):
+#   SAssign  `S(v=Spec(x))` as a step of a tuple.  `_handle_tuple` appends the S-rooted step to scope[Path];
+#            when a LATER step of that tuple is a list spec whose target cannot be iterated (`__iter__` / the
+#            registered `iterate` raises), `_handle_list` renders its TypeError message with `Path(*scope[Path])`,
+#            which refuses an S-rooted segment after the first: ValueError('path segment must be path from T, not S')
+#            leaves glom() in place of the TypeError the `raise` names (c04_conv_outcome / c04_internal_subtypes).
+S_SEGMENT_IN_PATH = os.environ.get('C04_SSEG', '') == '1'
 # ---------------------------------------------------------------------------------------------------
 
 MANIFEST = dict(
@@ -45,13 +54,13 @@ MANIFEST = dict(
          "c04_rewrap_stable, c04_wrap_idempotent); a fault at any depth under any nesting of "
          "tuple/dict/list/Spec/Call/Invoke/Iter frames reaches the handler unchanged (c04_plain_frames), passes a "
          "Coalesce exactly when it does not match its skip_exc (c04_coalesce_selective), is converted by glom's own "
-         "try blocks exactly for the classes they name (c04_conv_selective), and for EVERY nesting of plain / "
+         "try blocks — seen from outside the whole call — exactly for the classes they name (c04_conv_outcome), and for EVERY nesting of plain / "
          "iterator / Coalesce / nested glom(default=, skip_exc=) levels the level that replaces it is the first "
          "whose skip_exc matches what reaches it, what gets through keeps every class of the original "
          "(c04_levels, c04_levels_faithful, c04_nested_selective: induction over the nesting; c04_origin_sound: "
          "mutual induction over specs). Per-run facts obligations by `decide` on tables regenerated from /repo "
-         "(c04_facts_wf, c04_internal_subtypes). Seven counter-example theorems: the four pre-repair shapes and the "
-         "three class kinds the current code does not cope with. Model tied to the code by differential execution "
+         "(c04_facts_wf, c04_internal_subtypes). Eight counter-example theorems: the five pre-repair shapes and the "
+         "three class kinds of the two known findings. Model tied to the code by differential execution "
          "on generated classes x fault sources x fault positions x the keyword matrix x entry points x histories.",
     note="trusted: Lean kernel + {propext, Classical.choice, Quot.sound}; extractor (AST patterns of glom(), "
          "GlomError.wrap, _glom, Coalesce.glomit, _handle_list, Spec.glom/Glommer.glom, _t_eval branches, __copy__ "
@@ -61,10 +70,14 @@ MANIFEST = dict(
          "Glom/Model/C04*.lean and validated by the correspondence only (the C3 merge is modelled, proved sound and "
          "validated against type.__mro__ on generated multiple-inheritance hierarchies). Args are "
          "None/int/str/bytes/opaque objects/lists of exceptions (no bool/float, so == is structural); constructors "
-         "that raise raise Exception subclasses; repr() of the exception does not raise; no user __new__. GENUINE "
-         "DEFECT (gated by HOSTILE_CLASSES, counter-example theorems c04_class_counterexample_sealed / _frozen / "
-         "_foreign_copy): type() in GlomError.wrap stands outside its try, _set_wrapped/_finalize in glom() are "
-         "unguarded, a copy of another class with equal args is accepted.",
+         "that raise raise Exception subclasses; repr() of the exception does not raise; no user __new__; an "
+         "exception whose __bool__ raises is not in the __context__ chain of another handled exception. KNOWN "
+         "FINDINGS (generated, classified only when the implementation behaves like the model of the current code; "
+         "counter-example theorems c04_class_counterexample_frozen / _bool_raises / _foreign_copy): "
+         "glomerror_refuses_setattr (_set_wrapped/_finalize in glom() unguarded), copy_returns_other_class. "
+         "Repaired and mirrored: 205945c (type() inside wrap's try: demanded by c04_facts_wf, revert caught by "
+         "classes that refuse subclassing). Gated (S_SEGMENT_IN_PATH): an S-rooted tuple step before a list spec "
+         "whose target cannot be iterated makes _handle_list's message unrenderable (ValueError leaves).",
     technique='Lean 4 proof over exception classes as data (case analysis of the handler, C3 merge by induction, '
               'induction over frame contexts / nesting levels / mutual induction over specs) + facts obligations '
               'by decide + differential correspondence with self-contained (hermetic) histories',
@@ -74,7 +87,7 @@ RULE = ('type-directed: an exception class is drawn from a catalogue generated f
         'glom\'s own classes, user classes over one or SEVERAL bases (Exception/builtin/GlomError/TypeMatchError/'
         'KeyboardInterrupt, GlomError as a mix-in before or after a builtin) with store-all, no-super, prefix, len '
         '(arity-changing), const, reversing, validating (ValueError), keyword-only, fixed-arity constructors, falsy instances, '
-        '__eq__/__hash__ overridden, __slots__, a user '
+        '__eq__/__hash__ overridden, __slots__, classes that refuse subclassing, refuse setattr, whose __bool__ raises, a user '
         '__reduce__ / __copy__, two-level subclasses), built with arguments that fit its signature (sometimes '
         '.args reassigned afterwards, __cause__/__context__ set, or the CLASS raised instead of an instance); the '
         'fault is raised by a callable spec, the function of Call/Invoke/T(...), a default_factory, a Coalesce '
@@ -84,7 +97,8 @@ RULE = ('type-directed: an exception class is drawn from a catalogue generated f
         'with their own default/skip_exc/glom_debug is generated with the fault at a random position and '
         'mostly-returning siblings; a one-edit mutation stream moves the fault, changes its source, plants a '
         'failing path / Match before it, wraps it in a Coalesce or a nested glom call whose skip_exc does / does '
-        'not match; keywords from default in {absent, sentinel} x skip_exc in {absent, the class, a base, an '
+        'not match; keywords from default in {absent, a fresh object, a list / dict / tuple / set, a T / S / Spec object} '
+        '(returned by identity; for a list also: a later append reaches the caller) x skip_exc in {absent, the class, a base, an '
         'unrelated class, a tuple, (), GlomError} x glom_debug in {absent, False, True} x entry point in '
         '{glom, Spec.glom, Glommer.glom}; thorough also enumerates catalogue x keyword matrix x contexts. '
         'non-trivial = an exception reached glom()\'s handler and (it was raised below the top level, or a '
@@ -95,7 +109,18 @@ RULE = ('type-directed: an exception class is drawn from a catalogue generated f
 TRUSTED = ['generated user classes define __copy__/__reduce__ only as the case says; args are None/int/str/bytes/'
            'opaque objects / lists of exceptions; GLOM_DEBUG is not set in the environment of the check']
 ASSUMPTIONS = ['default registry (plus the handlers a case registers on its own Glommer); specs limited to the node '
-               'kinds listed in RULE', 'GLOM_DEBUG unset']
+               'kinds listed in RULE', 'GLOM_DEBUG unset',
+               'READING (conversions): an exception raised by a method of the TARGET (or a registered handler) inside '
+               "one of glom's own try blocks is a failure detected by glom itself for exactly the classes the except "
+               "clause names, and must then leave as the class the `raise` in that handler names (PathAccessError; "
+               "TypeError for iterate); for every other class the user's exception keeps its class",
+               'READING (also a GlomError): demanded only of classes a subclass of which can be created and whose '
+               'instances accept new attributes and can have their traceback formatted (`extensible`)',
+               'READING (original object under glom_debug): the same object with its __cause__ and __context__ '
+               'unchanged',
+               'READING (exception raised by the __repr__ of a user exception while glom renders one of its own '
+               "messages): user code raised it, it keeps ITS class — not a violation; such exceptions are outside the "
+               'generated domain (impl kind repr_error)']
 
 PLAIN_BASES = ['Exception', 'KeyError', 'ValueError', 'ZeroDivisionError', 'IndexError', 'AttributeError',
                'TypeError', 'LookupError', 'StopIteration', 'RuntimeError', 'GlomError', 'BadSpec', 'FoldError',
@@ -118,7 +143,8 @@ FAULT_ITER = ['next']
 FAULT_CONV = {'iter': 'iter', 'reg_iter': 'iter', 'getitem': 'getitem', 'getattr': 'getattr', 'path': 'path',
               'reg_get': 'path'}
 FAULT_KINDS = FAULT_DIRECT + FAULT_ITER + sorted(FAULT_CONV)
-FRAME_KINDS = ['Spec', 'Auto', 'Pipe', 'Ref', 'CallArg', 'InvokeSpec', 'FillAuto']
+FRAME_KINDS = ['Spec', 'Auto', 'Pipe', 'Ref', 'CallArg', 'InvokeSpec', 'FillAuto'] + (['SAssign'] if S_SEGMENT_IN_PATH else [])
+
 FIRST_KINDS = ['First', 'IterFirst', 'IterMap', 'IterFilter', 'IterMapFirst']
 ENTRIES = ['glom', 'spec', 'glommer']
 
@@ -137,11 +163,16 @@ def real_class(name):
     raise KeyError(name)
 
 
-def make_class(name, bases, shape, falsy, copy_kind='args', sealed=False, frozen=False, eqhash=False, slots=False):
+def make_class(name, bases, shape, falsy, copy_kind='args', sealed=False, frozen=False, eqhash=False, slots=False,
+               boolraises=False):
     """Python class from the shape data (the Lean reading of the same data is `Shape.construct`)."""
     ns = {}
     if falsy:
         ns['__bool__'] = lambda self: False
+    if boolraises:
+        def bool_(self):
+            raise RuntimeError('bool')
+        ns['__bool__'] = bool_
     if eqhash:          # never equal to anything (itself included), unhashable: glom must go by identity
         ns['__eq__'] = lambda self, other: False
         ns['__ne__'] = lambda self, other: True
@@ -163,7 +194,7 @@ def make_class(name, bases, shape, falsy, copy_kind='args', sealed=False, frozen
         ns['__init_subclass__'] = classmethod(refuse)
     if frozen:
         def setattr_(self, k, v):
-            raise AttributeError('cannot assign to field %r' % k)
+            raise AttributeError('setattr')
         ns['__setattr__'] = setattr_
     if shape is not None:
         lo, hi, kwreq, store = shape['sig']
@@ -213,6 +244,22 @@ def bases_of(c):
     return c['bases'] if 'bases' in c else [c['base']]
 
 
+def norm_class(c):
+    """every field the driver reads, spelled out (the driver rejects a case with a missing field)"""
+    out = {'name': c['name'], 'bases': list(bases_of(c)), 'shape': c.get('shape'), 'falsy': bool(c.get('falsy')),
+           'copy': c.get('copy', 'args'), 'sealed': bool(c.get('sealed')), 'frozen': bool(c.get('frozen')),
+           'boolraises': bool(c.get('boolraises'))}
+    for k in ('eqhash', 'slots'):       # Python-only variety: the model does not depend on them
+        if c.get(k):
+            out[k] = True
+    return out
+
+
+def norm_exc(e):
+    return {'cls': e['cls'], 'init': e['init'], 'kw': bool(e.get('kw')), 'set_args': e.get('set_args'),
+            'raise_class': bool(e.get('raise_class')), 'cause': bool(e.get('cause')), 'context': bool(e.get('context'))}
+
+
 _CLASS_MEMO = {}
 
 
@@ -235,7 +282,7 @@ def _build_classes(specs):
         bases = [table.get(b) or real_class(b) for b in bases_of(c)]
         table[c['name']] = make_class(c['name'], bases, c.get('shape'), c.get('falsy', False),
                                       c.get('copy', 'args'), c.get('sealed', False), c.get('frozen', False),
-                                      c.get('eqhash', False), c.get('slots', False))
+                                      c.get('eqhash', False), c.get('slots', False), c.get('boolraises', False))
     return table
 
 
@@ -334,6 +381,39 @@ class RegIter:
 
 class RegGet:
     """target class known only to the case's Glommer: its registered `get` raises"""
+
+
+# what the object passed as `default=` is: the property says it comes back ITSELF, whatever it is — a container
+# (not an equal copy: the caller appends to it later), a T / S / Spec object (not its evaluation)
+DEFAULT_KINDS = ['obj', 'obj', 'list0', 'list', 'dict', 'tuple', 'set', 'frozenset', 'nested', 'T', 'Tpath', 'S', 'Spec']
+
+
+def make_default(kind):
+    import glom
+    if kind == 'list0':
+        return []
+    if kind == 'list':
+        return [1, 2]
+    if kind == 'dict':
+        return {'k': 'v'}
+    if kind == 'tuple':
+        return (1, [2])
+    if kind == 'set':
+        return {1, 2}
+    if kind == 'frozenset':
+        return frozenset([3])
+    if kind == 'nested':
+        return {'rows': [], 'meta': {}}
+    # (T and S themselves are module singletons: a FRESH expression each, so that `is` identifies this call's default)
+    if kind == 'T':
+        return glom.T[0]
+    if kind == 'Tpath':
+        return glom.T['fallback']
+    if kind == 'S':
+        return glom.S[glom.T]
+    if kind == 'Spec':
+        return glom.Spec(glom.T)
+    return object()
 
 
 def glom_kwargs(st, env, sentinel):
@@ -453,6 +533,8 @@ def compile_spec(sp, env):
             return glom.Invoke(ident).specs(x)
         if k == 'FillAuto':
             return glom.Fill(glom.Auto(x))
+        if k == 'SAssign':
+            return glom.S(v=glom.Spec(x))
         raise ValueError(k)
     if 'first' in sp:       # the key of First / Iter steps, as a tuple step (run on the items of the list)
         x = compile_spec(sp['first'], env)
@@ -484,7 +566,7 @@ def compile_spec(sp, env):
     if 'nest' in sp:
         inner = compile_spec(sp['nest'], env)
         st = sp['settings']
-        kw = glom_kwargs(st, env, env['inner_sentinel'])
+        kw = glom_kwargs(st, env, make_default(st.get('dkind', 'obj')))
         entry = sp.get('entry', 'glom')
 
         def nested(t):
@@ -540,7 +622,7 @@ def _execute(case):
     try:
         table = build_classes(case['classes'])
     except TypeError:
-        return {'class_error': True}
+        return {'kind': 'class_error'}
 
     def cls_of(n):
         return table.get(n) or real_class(n)
@@ -557,7 +639,7 @@ def _execute(case):
         try:
             orig = K(*init, **({'code': 1} if ex.get('kw') else {}))
         except Exception:
-            return {'ctor_error': True}
+            return {'kind': 'ctor_error'}
         if ex.get('set_args') is not None:
             object.__setattr__(orig, 'args', tuple(codec.dec(a) for a in ex['set_args']))
         if ex.get('cause'):
@@ -567,7 +649,7 @@ def _execute(case):
         try:
             repr(orig)
         except Exception:
-            return {'repr_error': True}     # glom renders the exception in messages of its own
+            return {'kind': 'repr_error'}     # glom renders the exception in messages of its own
     cyc = []
     cyc.append(cyc)
     cyc.append(cyc)
@@ -603,7 +685,7 @@ def _execute(case):
         rec = Recorder(spec)
         spec = rec
     st = case['settings']
-    sentinel = object()
+    sentinel = make_default(st.get('dkind', 'obj'))
     kw = glom_kwargs(st, env, sentinel)
     try:
         ret = call_entry(case.get('entry', 'glom'), env, cyc, spec, kw)
@@ -619,8 +701,13 @@ def _execute(case):
         rebuilt = codec.enc_args(type(orig)(*orig.args).args)
     except Exception:
         rebuilt = None
-    impl = {'orig': {'mro': mro_names(type(orig)), 'args': codec.enc_args(orig.args), 'rebuild': rebuilt,
-                     'falsy': not bool(orig)}}
+    try:
+        falsy = not bool(orig)
+    except Exception:
+        falsy = False
+    impl = {'kind': 'ran',
+            'orig': {'mro': mro_names(type(orig)), 'args': codec.enc_args(orig.args), 'rebuild': rebuilt,
+                     'falsy': falsy}}
 
     def rel(o, cause, context):
         return {'same': res is o, 'inst': isinstance(res, type(o)),
@@ -642,7 +729,16 @@ def _execute(case):
             r['rec'] = rel(rec.seen, rec.cause, rec.context)
         impl['obs'] = {'raised': r}
     else:
-        impl['obs'] = {'returned': 'default' if ret is sentinel else 'none' if ret is None else 'value'}
+        kind = 'default' if ret is sentinel else 'none' if ret is None else 'value'
+        if kind == 'default' and isinstance(sentinel, list):
+            # "the default object itself": what the caller appends to the result later is in HIS list
+            token = object()
+            ret.append(token)
+            if not (sentinel and sentinel[-1] is token):
+                kind = 'value'
+            else:
+                sentinel.pop()
+        impl['obs'] = {'returned': kind}
     return impl
 
 
@@ -775,15 +871,18 @@ def gen_exception(rng):
                 b2 = consistent_bases(['U1', rng.choice(MIXINS)], classes)
             classes.append({'name': 'U2', 'bases': b2, 'shape': None, 'falsy': rng.random() < 0.05, 'copy': 'args'})
             name = 'U2'
-        if HOSTILE_CLASSES and rng.random() < 0.15:
+        if rng.random() < 0.12:       # classes that resist what glom()'s handler does with an exception
             last = classes[-1]
-            k = rng.choice(['sealed', 'frozen', 'foreign'])
+            k = rng.choice(['sealed', 'sealed', 'frozen', 'foreign', 'boolraises'])
             if k == 'foreign':
                 last['copy'] = 'foreign'
-            elif k == 'frozen' and last.get('shape') is not None:
-                last['frozen'] = True
-            elif k == 'sealed':
-                last['sealed'] = True
+            elif k == 'boolraises':
+                if not any(c.get('falsy') for c in classes):
+                    last['boolraises'] = True
+            else:
+                last[k] = True
+            if last.get('frozen') and ctor_root(name, classes)[1] in ARITY:
+                last['frozen'] = False      # glom's own __init__ assigns attributes: such a subclass cannot be built
     init, kw = init_for(rng, name, classes, mismatch=rng.random() < 0.03)
     exc = {'cls': name, 'init': init, 'kw': kw, 'set_args': None}
     r = rng.random()
@@ -845,7 +944,7 @@ def gen_settings(rng, mro):
                 'debug': rng.choice([None, None, None, False, True, None])}
     skip, tup = gen_skip(rng, mro)
     return {'default': rng.random() < 0.45, 'skip': skip, 'skip_tuple': tup,
-            'debug': rng.choice([None, None, None, False, True])}
+            'debug': rng.choice([None, None, None, False, True]), 'dkind': rng.choice(DEFAULT_KINDS)}
 
 
 def gen_fault(rng, exotic):
@@ -978,8 +1077,25 @@ def gen_before(rng, classes, exc):
     return out
 
 
+def rehandled(sp):
+    """is an exception that glom raised while handling the fault (so: with the fault as its __context__) handled by
+    glom again — by the handler of an enclosing glom() call, or created by `_handle_list`'s except block?"""
+    if isinstance(sp, str):
+        return False
+    if 'fault' in sp:
+        return sp['fault'] in ('iter', 'reg_iter')
+    if 'nest' in sp:
+        return True
+    return any(rehandled(x) for x in kids_of(sp))
+
+
 def mk_case(classes, exc, spec, settings, rng=None, recorder=None, entry=None, before=None):
     spec = fix_entries(spec)
+    if rehandled(spec) and any(c.get('boolraises') for c in classes):
+        # `_finalize` formats the traceback of the exception being handled WITH its __context__ chain, evaluating
+        # bool() of every member: the model knows __context__ by identity only, so an exception whose __bool__
+        # raises is kept out of the chains of other handled exceptions (Limits)
+        classes = [dict(c, boolraises=False) for c in classes]
     if entry is None:
         entry = rng.choice(ENTRIES) if rng is not None and rng.random() < 0.4 else 'glom'
     if needs_glommer(spec):
@@ -988,8 +1104,10 @@ def mk_case(classes, exc, spec, settings, rng=None, recorder=None, entry=None, b
         recorder = has_internal(spec) or (rng is not None and rng.random() < 0.3)
     if before is None and rng is not None and rng.random() < 0.2:
         before = gen_before(rng, classes, exc)
-    return {'classes': classes, 'exc': exc, 'spec': spec, 'settings': settings, 'entry': entry,
-            'recorder': bool(recorder or has_internal(spec) or exc.get('raise_class')), 'before': before or []}
+    before = [dict(b, classes=[norm_class(c) for c in b['classes']], exc=norm_exc(b['exc'])) for b in before or []]
+    return {'classes': [norm_class(c) for c in classes], 'exc': norm_exc(exc), 'spec': spec, 'settings': settings,
+            'entry': entry, 'recorder': bool(recorder or has_internal(spec) or exc.get('raise_class')),
+            'before': before}
 
 
 def map_fault(sp, f):
@@ -1014,6 +1132,7 @@ def mutate(rng, case):
     k = rng.randrange(10)
     if k == 0:
         c['settings']['default'] = not c['settings']['default']
+        c['settings']['dkind'] = rng.choice(DEFAULT_KINDS)
     elif k == 1:
         c['settings']['skip'], c['settings']['skip_tuple'] = gen_skip(rng, mro)
     elif k == 2:
@@ -1041,7 +1160,7 @@ def mutate(rng, case):
             c['spec']['kind'] = rng.choice(FIRST_KINDS)
     else:
         if c['classes'] and c['classes'][0].get('shape') is not None:
-            c['classes'][0]['shape']['sig'][3] = rng.choice(USER_STORES)
+            c['classes'][0]['shape'] = {'sig': c['classes'][0]['shape']['sig'][:3] + [rng.choice(USER_STORES)]}
         elif not c['exc'].get('raise_class'):
             c['exc']['set_args'] = [gen_aval(rng) for _ in range(rng.choice([0, 1, 2]))]
     return mk_case(c['classes'], c['exc'], c['spec'], c['settings'], recorder=c.get('recorder'), entry=c.get('entry'),
@@ -1137,7 +1256,8 @@ def exhaustive(tier):
                 i += 1
                 if i % step:
                     continue
-                yield mk_case(classes, exc, spec, {'default': d, 'skip': skip, 'skip_tuple': tup, 'debug': dbg},
+                yield mk_case(classes, exc, spec, {'default': d, 'skip': skip, 'skip_tuple': tup, 'debug': dbg,
+                                                   'dkind': DEFAULT_KINDS[i // step % len(DEFAULT_KINDS)]},
                               entry=ENTRIES[i // step % 3])
         few = [(False, (None, False), None), (True, (None, False), None), (False, ([real[0]], False), None),
                (True, (['EOFError', real[-1]], True), False), (False, (None, False), True), (True, ([], True), None)]
@@ -1146,7 +1266,8 @@ def exhaustive(tier):
                 i += 1
                 if i % (2 if thorough else 97):
                     continue
-                yield mk_case(classes, exc, spec, {'default': d, 'skip': skip, 'skip_tuple': tup, 'debug': dbg},
+                yield mk_case(classes, exc, spec, {'default': d, 'skip': skip, 'skip_tuple': tup, 'debug': dbg,
+                                                   'dkind': DEFAULT_KINDS[i % len(DEFAULT_KINDS)]},
                               entry=ENTRIES[i % 3])
 
 
@@ -1212,6 +1333,32 @@ def corpus():
         mk_case([], {'cls': 'BaseExceptionGroup', 'init': [{'s': 'g'}, {'x': 11}], 'kw': False, 'set_args': None},
                 {'fault': 'invoke'}, dflt),
     ]
+    out += [
+        # repaired by 205945c: a class that refuses to be subclassed leaves glom() as itself
+        mk_case([U('Final', 'Exception', sealed=True)],
+                {'cls': 'Final', 'init': [{'i': 1}], 'kw': False, 'set_args': None}, 'fault', none),
+        mk_case([U('FinalK', ['KeyError', 'ValueError'], sealed=True)],
+                {'cls': 'FinalK', 'init': [{'s': 'k'}], 'kw': False, 'set_args': None},
+                {'nest': {'fault': 'call'}, 'settings': none, 'entry': 'spec'}, dflt),
+        # the two known findings, one witness per shape
+        mk_case([U('Fz', 'GlomError', {'sig': [1, 1, False, 'all']}, frozen=True)],
+                {'cls': 'Fz', 'init': [{'i': 1}], 'kw': False, 'set_args': None}, 'fault', none),
+        mk_case([U('Bo', 'KeyError', boolraises=True)],
+                {'cls': 'Bo', 'init': [{'s': 'k'}], 'kw': False, 'set_args': None}, {'tup': ['ok', 'fault']}, none),
+        mk_case([U('Cp', 'GlomError', copy='foreign')],
+                {'cls': 'Cp', 'init': [{'i': 1}], 'kw': False, 'set_args': None}, 'fault', none),
+    ]
+    # the default object itself, whatever it is (container, T / S / Spec object), through every entry point
+    for dk in sorted(set(DEFAULT_KINDS)):
+        for en in ENTRIES:
+            out.append(mk_case([], key_err, {'fault': 'call'}, {'default': True, 'skip': ['LookupError'],
+                                                                'skip_tuple': False, 'debug': None, 'dkind': dk}, entry=en))
+            out.append(mk_case([], key_err, 'badPath', dict(dflt, dkind=dk), entry=en))
+    # a returning frame of every kind, as an earlier step of the tuple, before every fault source (the frames leave
+    # their traces in the scope — scope[Path], chained child scopes — which glom's own error paths read)
+    for fk in FRAME_KINDS:
+        for kind in FAULT_KINDS:
+            out.append(mk_case([], key_err, {'tup': ['ok', {'frame': 'ok', 'kind': fk}, {'fault': kind}]}, none))
     p = os.path.join(os.path.dirname(os.path.dirname(os.path.dirname(os.path.abspath(__file__)))),
                      'corpus', 'C04.jsonl')
     if os.path.exists(p):
@@ -1305,6 +1452,15 @@ def shrink(case):
         c = dict(base)
         c['recorder'] = False
         yield c
+
+
+def classify(case, verdict):
+    """a failure is one of the known findings only if the case has that shape (the driver says which), the
+    implementation behaves exactly like the Lean model of the current code on it, and that model breaks the property"""
+    ks = verdict.get('known_shape')
+    if ks in KNOWN_CLASSIFIERS and verdict.get('agree') is True and verdict.get('model_holds') is False:
+        return ks
+    return None
 
 
 def focus(disagreements, facts_changed):
